@@ -5,7 +5,7 @@ import datetime as dt
 
 import runner
 from sim import invoker, adapter
-from ref import pattern as rp, bump as rb, pep440
+from ref import pattern as rp, bump as rb, pep440, legacy as rl
 from gen import patterns as gp
 
 SV_KINDS = ["greater", "greater", "equal", "lower", "junk", "trailing", "pep_equal", "tag_down", "other_scheme"]
@@ -123,12 +123,15 @@ def check_announced(ctx, tree, pattern, old_text, new_text, res_stdout, focus_fa
                               "parse/format of %r gives %r (pattern %r)" % (new_text, again, pattern))
             st = states[0]
             d = vinfo._asdict()
+            if "year" in d and "year_y" not in d:
+                d["year_y"] = d["year"]
+            bld_like = any(rp.PARTS[n][1] == "bld" or rp.PARTS[n][1].startswith("bldpad") for n in rp.parts_of(tree))
             for fld, val in st.items():
                 if fld.startswith("__"):
                     continue
                 have = d.get(fld)
-                if fld == "bid" and "BLD" in rp.parts_of(tree):
-                    have = str(int(have))
+                if fld == "bid" and bld_like:
+                    have, val = int(have), int(val)
                 if have != val:
                     ctx.violation("C02", "readback_mismatch", dict(focus_facts, text=new_text, field=fld),
                                   "%r read back with %s=%r, reference reads %r (pattern %r)" % (
@@ -157,6 +160,8 @@ def check_announced(ctx, tree, pattern, old_text, new_text, res_stdout, focus_fa
 
 def expectation(ctx, tree, state, text, flags, clock, date_conflict=False):
     """Reference verdict for one bump: -> (kind, state|None, text|None); kind: ok | must_fail:* | unspecified:*"""
+    if any(n.startswith("L.") for n in rp.parts_of(tree)):
+        return "unspecified:legacy", None, None   # C20 states no bump rules for legacy patterns, only laws
     exp_state = exp_text = None
     kind = "ok"
     names = set(rp.parts_of(tree))
@@ -301,9 +306,21 @@ def step_clock(ctx, clock, delta, two_digit):
     return new_clock
 
 
+LEGACY_MIRROR = ("announced_not_accepted", "not_strictly_greater", "render_not_recognised", "rerender_differs",
+                 "readback_mismatch", "set_version_not_announced")
+
+
+def mirror_legacy(ctx, start):
+    """C20 restates C01/C02's laws for legacy patterns: mirror this step's law violations under C20."""
+    for v in list(ctx.violations[start:]):
+        if v["property"] in ("C01", "C02") and v["kind"] in LEGACY_MIRROR:
+            ctx.violation("C20", v["kind"], dict(v["facts"], legacy=True), v["detail"])
+
+
 class TestCmd:
-    def __init__(self, focus, quick, thorough, all_flag_subsets=False, sv_rate=0.2):
+    def __init__(self, focus, quick, thorough, all_flag_subsets=False, sv_rate=0.2, legacy=False):
         self.focus = focus
+        self.legacy = legacy
         self.name = "TESTCMD/" + focus
         self._quick = quick
         self._thorough = thorough
@@ -319,11 +336,17 @@ class TestCmd:
     def gen(self, seed, index, tier):
         rng = runner.rng_for(seed, self.name, index)
         while True:
-            pat = gp.gen_pattern(rng)
-            tree = rp.tokenize(pat["pattern"])
+            if self.legacy:
+                pat = {"pattern": rng.choice(gp.LEGACY_PATTERNS)}
+                tree = rl.tokenize(pat["pattern"])
+            else:
+                pat = gp.gen_pattern(rng)
+                tree = rp.tokenize(pat["pattern"])
             if rp.parts_of(tree):
                 break
         epoch = gp.gen_epoch(rng, gp.has_two_digit_year(tree))
+        if self.legacy and not (2000 <= epoch.year <= 2098):
+            epoch = epoch.replace(year=rng.randint(2000, 2098))
         state_date = epoch
         if rng.random() < 0.12:
             state_date = epoch + dt.timedelta(days=rng.randint(1, 400))
@@ -344,7 +367,8 @@ class TestCmd:
 
     def run(self, case, ctx):
         pattern = case["pattern"]
-        tree = rp.tokenize(pattern)
+        tree = rl.tokenize_any(pattern)
+        legacy = rl.is_legacy(pattern)
         clock = dt.date.fromisoformat(case["epoch"])
         state = dict(case["state"])
         text = rp.render(tree, state)
@@ -369,9 +393,28 @@ class TestCmd:
                 if target is not None:
                     argv += ["--set-version", target]
             exp = expectation(ctx, tree, state, text, flags, clock, bool(use_date and flags.get("pin_date")))
+            nviol = len(ctx.violations)
             res = invoker.invoke(d, argv, today)
             ctx.invocations += 1
             new_text = res.out_value("New Version: ")
+            if legacy:
+                # engine-dispatch consistency: the same bump through `update --dry` in a project configured with
+                # (text, pattern) must agree with `test` on success/failure and on the announced version
+                cfgtext = ('[bumpver]\ncurrent_version = "%s"\nversion_pattern = "%s"\n\n[bumpver.file_patterns]\n'
+                           '"bumpver.toml" = [\'current_version = "{version}"\']\n' % (text, pattern))
+                invoker.write_tree(d, {"bumpver.toml": cfgtext.encode()})
+                ures = invoker.invoke(d, ["update", "--dry"] + argv[3:], today)
+                ctx.invocations += 1
+                unew = ures.log_value("New Version: ") if ures.exit_code == 0 else None
+                ctx.event("update-dry", ures.exit_code, unew)
+                import os as _os
+                _os.unlink(_os.path.join(d, "bumpver.toml"))
+                if (res.exit_code == 0) != (ures.exit_code == 0) or (res.exit_code == 0 and unew != new_text):
+                    ctx.violation("C20", "engine_dispatch_inconsistent", {"pattern": pattern},
+                                  "`test %s %s %s` exit %s -> %r, but `update --dry` in a project configured with them exit %s -> %r (%s)" % (
+                                      text, pattern, argv[3:], res.exit_code, new_text, ures.exit_code, unew,
+                                      ures.exc or [m for _l, _n, m in ures.logs][-2:]))
+                ctx.probe("legacy_dispatch_compared")
             ctx.event(argv, res.exit_code, new_text)
             rel = "same" if delta == 0 else ("fwd" if delta > 0 else "back")
             abstract = (tuple(sorted(set(rp.parts_of(tree)))), tuple(sorted(flags)), op.get("sv"), rel)
@@ -386,6 +429,8 @@ class TestCmd:
             if target is not None:
                 out = judge_set_version(ctx, tree, pattern, state, text, op["sv"], target, res.exit_code, new_text,
                                         res.stdout, abstract, base_facts)
+                if legacy:
+                    mirror_legacy(ctx, nviol)
                 if out is None:
                     break
                 if out[1] != text:
@@ -395,6 +440,11 @@ class TestCmd:
             out = judge_bump(ctx, tree, pattern, state, text, flags, clock, delta, exp, res.exit_code, new_text,
                              res.stdout, generated, abstract,
                              fail_info="exit %s %s" % (res.exit_code, res.exc or [m for _l, _n, m in res.logs][-2:]))
+            if legacy:
+                mirror_legacy(ctx, nviol)
+                if res.exit_code == 0 and new_text is not None and pattern == "{pycalver}" and not new_text > text:
+                    ctx.violation("C20", "pycalver_not_greater_as_string", {"pattern": pattern},
+                                  "%r is not greater than %r as a plain string" % (new_text, text))
             if out is None:
                 break
             state, text, generated = out
